@@ -203,6 +203,51 @@ int main(int argc, char** argv) {
         });
     }
   }
+  // ---------------------------------------------------------------- cache histories under the sanitizers
+  // every ordered pair of CacheArea rectangles of a sub-lattice (then queries, CacheClear, queries) on a fresh object:
+  // memory errors in the cache bookkeeping (row resizing, wrap-around reads, pole rows) are fatal outcomes here.
+  ctx.sub("san-histories");
+  {
+    struct R4 { double s, w, n, e; };
+    std::vector<R4> rects;
+    const std::vector<double> las = T ? std::vector<double>{-90, -45, 0, 45, 90} : std::vector<double>{-90, 0, 90};
+    const std::vector<double> los = T ? std::vector<double>{-180, -90, 0, 90, 180, 270} : std::vector<double>{-180, -90, 0, 90};
+    for (double s : las) for (double n : las) if (s <= n) for (double w : los) for (double e : los) rects.push_back({s, w, n, e});
+    ctx.bound("san-histories.pairs", "all " + fmti((long long)(rects.size() * rects.size())) + " ordered pairs of CacheArea rectangles with s<=n in {" + (T ? "-90,-45,0,45,90" : "-90,0,90") + "}, w,e in {" + (T ? "-180,-90,0,90,180,270" : "-180,-90,0,90") + "}, x rasters 8x9 and 2x5 x {bilinear, cubic}; 14 queries after the pair and after CacheClear");
+    const double qs[14][2] = {{90, 0}, {-90, 0}, {89, 179.5}, {-89, -179.5}, {0, 180}, {0, -180}, {10, 20}, {-33, -91}, {45, 90}, {44.9, 89.9}, {-45, 269}, {67.5, 135}, {22.5, -45}, {0, 0}};
+    for (int big = 0; big < 2; ++big) for (int cubic = 0; cubic < 2; ++cubic) {
+      Spec sp; sp.w = big ? 8 : 2; sp.h = big ? 9 : 5; sp.px = pixels(sp.w, sp.h);
+      const std::string img = image_of(sp);
+      const size_t CH2 = 8;
+      for (size_t b = 0; b < rects.size(); b += CH2) {
+        if (!ctx.take()) continue;
+        size_t n = std::min(CH2, rects.size() - b);
+        iso.run(n,
+          [&](size_t i, fault::Report& rep) {
+            fault::write_file(g_dir + "/t.pgm", img);
+            const R4& a = rects[b + i];
+            double want[14]; { Geoid g("t", g_dir, cubic != 0, false); for (int q = 0; q < 14; ++q) want[q] = g(qs[q][0], qs[q][1]); }
+            for (const R4& c2 : rects) {
+              Geoid g("t", g_dir, cubic != 0, false);
+              g.CacheArea(a.s, a.w, a.n, a.e); g.CacheArea(c2.s, c2.w, c2.n, c2.e);
+              for (int pass = 0; pass < 2; ++pass) {
+                for (int q = 0; q < 14; ++q) { double v = g(qs[q][0], qs[q][1]); if (!mc::same_bits(v, want[q])) { rep.fail("pair " + fmti((long long)(b + i)) + (cubic ? "|cubic" : "|bilinear") + (big ? "|8x9" : "|2x5"), "after CacheArea(" + fmt(a.s) + "," + fmt(a.w) + "," + fmt(a.n) + "," + fmt(a.e) + "); CacheArea(" + fmt(c2.s) + "," + fmt(c2.w) + "," + fmt(c2.n) + "," + fmt(c2.e) + ")" + (pass ? "; CacheClear" : "") + " the height at " + fmt(qs[q][0]) + "," + fmt(qs[q][1]) + " is " + fx(v) + " instead of " + fx(want[q]), {{"kind", "history-dependence"}, {"cubic", cubic ? "1" : "0"}}); return; } }
+                g.CacheClear();
+              }
+            }
+            rep.count("pairs", rects.size());
+          },
+          [&](size_t i, const fault::Result& r) {
+            Ctx::Case cs(ctx); ctx.sig(uint64_t(r.oc) * 17 + cubic * 2 + big);
+            for (auto& c : r.counts) ctx.count(c.first, c.second);
+            for (auto& f : r.fails) ctx.fail(f.key, f.msg, f.fields);
+            if (r.oc != fault::OK)
+              ctx.fail("first rectangle " + fmti((long long)(b + i)) + (cubic ? "|cubic" : "|bilinear") + (big ? "|8x9" : "|2x5") + "|fatal", "pair histories starting with CacheArea(" + fmt(rects[b + i].s) + "," + fmt(rects[b + i].w) + "," + fmt(rects[b + i].n) + "," + fmt(rects[b + i].e) + ") ended with " + r.describe(),
+                       {{"kind", std::string("fatal-") + fault::name(r.oc)}, {"check", r.check}, {"where", r.where}, {"cubic", cubic ? "1" : "0"}});
+          });
+      }
+    }
+  }
   ctx.count("forks", iso.forks);
   ctx.list("skipped", "documentation-silent header variants (blank lines, CRLF, dimensions on two lines, trailing tokens, nan/inf tokens, duplicate keys, '#Offset') are only required to end cleanly and, if accepted, consistently");
   fault::rm_tmp_dir(g_dir);
